@@ -285,7 +285,15 @@ impl Prop for C03 {
         let mut suffix = suffix;
         quant(&mut suffix);
         // prefix: one base stream, an independent fault realisation per replica
-        let base_len = if r.chance(0.05) { r.range(400, 1500) } else { r.range(0, 300) };
+        // "arbitrarily long" prefixes: 3% of runs carry thousands of values (a defect may need a long stream)
+        let long = r.chance(0.03);
+        let base_len = if long {
+            if exact { r.range(3_000, 12_000) } else { r.range(5_000, 60_000) }
+        } else if r.chance(0.05) {
+            r.range(400, 1500)
+        } else {
+            r.range(0, 300)
+        };
         let shape = r.below(SHAPES.len()) as u8;
         let base = gen_shape(r, shape, base_len, s_scale, !exact);
         let spike = if exact { *r.pick(&[1e3, 1e6, 1e12]) } else { 20.0 };
@@ -362,7 +370,7 @@ impl Prop for C03 {
                 out.invalid = Some("dynamic range above 1e4 in f64 mode".into());
                 return out;
             }
-            if pa.len() + suffix.len() > 2600 || pb.len() + suffix.len() > 2600 {
+            if pa.len() + suffix.len() > 200_000 || pb.len() + suffix.len() > 200_000 {
                 out.invalid = Some("stream too long for f64 mode".into());
                 return out;
             }
@@ -379,6 +387,8 @@ impl Prop for C03 {
         let mut exempted = 0u64;
         let mut skipped = 0u64;
         let mut viol: Option<(usize, String, String)> = None;
+        let mut hold_viol: Option<(usize, String)> = None;
+        let mut held_checked = 0u64;
         if exact {
             crate::q::arena_reset();
             match run_pair::<Q>(spec, &pa, &pb, &suffix, &sc.sched) {
@@ -392,6 +402,22 @@ impl Prop for C03 {
                         h.opt(x.map(|q| q.to_f64_lossy()));
                         if exempt(spec, &suffix, s) {
                             exempted += 1;
+                            // the exception only covers a view that *is holding its previous output*: verify the hold
+                            if s >= 2 && s - 1 >= kk.saturating_sub(1).max(1) {
+                                for (who, o) in [("A", &p.a), ("B", &p.b)] {
+                                    let (prev, cur) = (o[s - 2], o[s - 1]);
+                                    let same = match (prev, cur) {
+                                        (None, None) => true,
+                                        (Some(a), Some(b)) => a == b,
+                                        _ => false,
+                                    };
+                                    held_checked += 1;
+                                    if !same && hold_viol.is_none() {
+                                        let sh = |o: Option<Q>| o.map(|q| q.show()).unwrap_or("None".into());
+                                        hold_viol = Some((s, format!("replica {} reported {} at clean step {} and {} at step {} although its ratio is 0/0 there (must hold the previous output)", who, sh(prev), s - 1, sh(cur), s)));
+                                    }
+                                }
+                            }
                             continue;
                         }
                         let nonfinite = |o: Option<Q>| o.map(|q| !q.is_finite()).unwrap_or(false);
@@ -428,6 +454,15 @@ impl Prop for C03 {
                         h.opt(x);
                         if exempt(spec, &suffix, s) {
                             exempted += 1;
+                            if s >= 2 && spec.k == K::Roc {
+                                for (who, o) in [("A", &p.a), ("B", &p.b)] {
+                                    let (prev, cur) = (o[s - 2], o[s - 1]);
+                                    held_checked += 1;
+                                    if prev.map(f64::to_bits) != cur.map(f64::to_bits) && hold_viol.is_none() {
+                                        hold_viol = Some((s, format!("replica {} reported {:?} at clean step {} and {:?} at step {} although its base is 0 there (must hold the previous output)", who, prev, s - 1, cur, s)));
+                                    }
+                                }
+                            }
                             continue;
                         }
                         let nonfinite = |o: Option<f64>| o.map(|q| !q.is_finite()).unwrap_or(false);
@@ -473,11 +508,21 @@ impl Prop for C03 {
         if pa.len().max(pb.len()) >= 1000 {
             out.stats.hit("reach.prefix_1000_plus");
         }
+        if pa.len().max(pb.len()) >= 5000 {
+            out.stats.hit("reach.prefix_5000_plus");
+        }
         if suffix.windows(2).all(|w| w[0] == w[1]) && suffix.len() > 1 {
             out.stats.hit("reach.flat_suffix");
         }
         if spec.kids[0].k.arity() != 0 {
             out.stats.hit("reach.two_level_chain");
+        }
+        out.stats.add("oracle.hold_steps_verified", held_checked);
+        if viol.is_none() {
+            if let Some((s, what)) = hold_viol {
+                out.violation = Some(Violation::new("hold_not_held", spec.k.name(), s, format!("{} (K={}): {}", spec.show(), kk, what)));
+                return out;
+            }
         }
         if let Some((s, x, y)) = viol {
             // culprit for chains: innermost node that leaks on its own
@@ -515,7 +560,7 @@ impl Prop for C03 {
     }
 
     fn rule(&self) -> String {
-        "Views cycle systematically through Sma, Cumulative, Min, Max, Roc, WelfordOnline (last, mean(), variance()), Vst, Vsct, HLNormalizer, BinaryEntropy, CenterOfGravity, CorrelationTrendIndicator, NoiseEliminationTechnology, Rsi, MyRSI, Alma (default and custom), PFE over {Sma, Alma}; in the thorough tier 25% of runs are two-level chains of them (K = K_outer + K_inner - 1). Two replicas of the same tree: one base stream (0-300 values, 5% 400-1500) gets an independent fault realisation per replica (drop, duplicate, reorder, corrupt, spike bursts up to 1e12 S in exact mode, up to 300/500 extra prefix values), then both receive the same clean suffix of K..K+3N values (grid with ties, flat, two-valued, zero-laden, zero-sum, volatile-then-flat, random walk, step); deliveries of the two replicas are interleaved by a random bit schedule. K = N; N+1 for Rsi, MyRSI, Roc; 2N for Alma; N+K(ma)-1 for PFE. Oracle: at every suffix step s >= K the two outputs are equal. One run in six is executed with the library instantiated at the exact scalar Q (rational arithmetic; no tolerance) and decides; the others run at f64 for the views without error amplification (tolerance 1e-6 of the output scale, dynamic range <= 1e4, conditioned suffix for Rsi/MyRSI/Roc). Steps where MyRSI's N most recent changes are all zero or Roc's base is 0 are exempt (computed from the suffix). distinct = distinct (topology, feed lengths, schedule bits); non-trivial = the two prefixes differ and at least one step was compared."
+        "Views cycle systematically through Sma, Cumulative, Min, Max, Roc, WelfordOnline (last, mean(), variance()), Vst, Vsct, HLNormalizer, BinaryEntropy, CenterOfGravity, CorrelationTrendIndicator, NoiseEliminationTechnology, Rsi, MyRSI, Alma (default and custom), PFE over {Sma, Alma}; in the thorough tier 25% of runs are two-level chains of them (K = K_outer + K_inner - 1). Two replicas of the same tree: one base stream (0-300 values, 5% 400-1500, 3% 3 000-60 000) gets an independent fault realisation per replica (drop, duplicate, reorder, corrupt, spike bursts up to 1e12 S in exact mode, up to 300/500 extra prefix values), then both receive the same clean suffix of K..K+3N values (grid with ties, flat, two-valued, zero-laden, zero-sum, volatile-then-flat, random walk, step); deliveries of the two replicas are interleaved by a random bit schedule. K = N; N+1 for Rsi, MyRSI, Roc; 2N for Alma; N+K(ma)-1 for PFE. Oracle: at every suffix step s >= K the two outputs are equal. One run in six is executed with the library instantiated at the exact scalar Q (rational arithmetic; no tolerance) and decides; the others run at f64 for the views without error amplification (tolerance 1e-6 of the output scale, dynamic range <= 1e4, conditioned suffix for Rsi/MyRSI/Roc). Steps where MyRSI's N most recent changes are all zero or Roc's base is 0 are exempt from the comparison (computed from the suffix), but there the exception is verified instead: each replica must report exactly its own previous output. distinct = distinct (topology, feed lengths, schedule bits); non-trivial = the two prefixes differ and at least one step was compared."
             .into()
     }
     fn assumptions(&self) -> Vec<String> {
@@ -527,7 +572,7 @@ impl Prop for C03 {
         ]
     }
     fn must_reach(&self, t: Tier) -> Vec<&'static str> {
-        let mut v = vec!["reach.prefixes_differ", "reach.prefix_lengths_differ", "reach.one_replica_without_prefix", "reach.prefix_1000_plus", "reach.flat_suffix", "fault.drop", "fault.dup", "fault.swap", "fault.corrupt", "fault.spike", "fault.extra_prefix", "oracle.steps_compared_exact", "oracle.steps_compared_f64", "skip.steps_exempt_hold"];
+        let mut v = vec!["reach.prefixes_differ", "reach.prefix_lengths_differ", "reach.one_replica_without_prefix", "reach.prefix_1000_plus", "reach.prefix_5000_plus", "reach.flat_suffix", "oracle.hold_steps_verified", "fault.drop", "fault.dup", "fault.swap", "fault.corrupt", "fault.spike", "fault.extra_prefix", "oracle.steps_compared_exact", "oracle.steps_compared_f64", "skip.steps_exempt_hold"];
         if t == Tier::Thorough {
             v.push("reach.two_level_chain");
         }
